@@ -296,7 +296,7 @@ NamedFam ==
 NestFam ==
   {RA, Arr(RA), SetOf(RA), Err(RA), Rec(<<"a", "b">>, <<RA, Arr(RA)>>), Rec(<<"b">>, <<RA>>),
    Un(<<RA, Arr(RA)>>), Un(<<Arr(RA), RA>>),
-   Un(<<P(1), RA, En(<<"s">>)>>), Un(<<En(<<"s">>), P(1), RA>>), Un(<<RA, En(<<"s">>), P(1)>>),
+   Un(<<P(1), RA, En(<<"s">>)>>), Un(<<En(<<"s">>), P(1), RA>>), Un(<<Rec(<<"b">>, <<P(2)>>), P(1), RA>>),
    En(<<"s">>), MapOf(RA, Un(<<P(1), P(2)>>)), MapOf(RA, Un(<<P(2), P(1)>>)),
    Un(<<P(1), P(2)>>), Un(<<P(2), P(1)>>), Un(<<A1, P(1)>>), Un(<<P(1), A1>>), A1,
    Rec(<<"a", "a">>, <<P(1), P(2)>>)}           \* duplicate field: an error, no state change
@@ -304,7 +304,7 @@ NestFam ==
 \* Sub-families for longer histories.
 NamedSmall == {A1, A2, Rec(<<"a", "b">>, <<A1, A1>>), Rec(<<"a", "b">>, <<A1, A2>>), NN,
                Rec(<<"a", "b">>, <<NN, A1>>), Rec(<<"a", "b">>, <<NN, NN>>), Un(<<A2, A1>>)}
-NestSmall == {RA, Arr(RA), Un(<<RA, Arr(RA)>>), Un(<<Arr(RA), RA>>), Un(<<P(1), P(2)>>), Un(<<P(2), P(1)>>),
+NestSmall == {RA, Arr(RA), Un(<<RA, Arr(RA)>>), Un(<<Arr(RA), RA>>), Un(<<P(1), P(2)>>), Un(<<Rec(<<"b">>, <<P(2)>>), P(1), RA>>),
               MapOf(RA, Un(<<P(2), P(1)>>)), En(<<"s">>)}
 
 \* Two named types CompareTypes cannot tell apart, listed in both orders.
@@ -333,7 +333,16 @@ ConcFam == {A1, A2, Rec(<<"a", "b">>, <<A1, A1>>), Rec(<<"a", "b">>, <<A2, A2>>)
             Rec(<<"a", "b">>, <<NN, NN>>)}
 ConcSmall == {A2, Rec(<<"a", "b">>, <<A1, A1>>), Rec(<<"a", "b">>, <<NN, NN>>)}
 
+\* The local types of the ZNG streams read through one zed.Mapper /
+\* MapperLookupCache (TypeMapper.tla): stream s assigns local id j to
+\* Streams[s][j]; the same local id denotes different types in the streams.
+Streams == << <<RA, Rec(<<"b">>, <<RA>>)>>,
+              <<Rec(<<"b">>, <<P(2)>>), Rec(<<"a">>, <<Rec(<<"b">>, <<P(2)>>)>>)>>,
+              <<Arr(P(1)), RA>> >>
+MapperFam == UNION {{Streams[s][j] : j \in 1..Len(Streams[s])} : s \in 1..Len(Streams)}
+
 Targets == CASE Family = "level1" -> Level1
+             [] Family = "mapper" -> MapperFam
              [] Family = "named"  -> NamedFam
              [] Family = "nest"   -> NestFam
              [] Family = "tie"    -> TieFam
@@ -342,7 +351,7 @@ Targets == CASE Family = "level1" -> Level1
              [] Family = "cmp"    -> CmpFam
              [] Family = "conc"   -> ConcFam
              [] Family = "conc-small" -> ConcSmall
-             [] Family = "all"    -> Level1 \cup NamedFam \cup NestFam \cup TieFam \cup CmpFam \cup ConcFam
+             [] Family = "all"    -> Level1 \cup NamedFam \cup NestFam \cup TieFam \cup CmpFam \cup ConcFam \cup MapperFam
 
 Calls == [m : Methods \ {"tdef", "reset"}, ot : Targets, nm : {""}]
          \cup (IF "tdef" \in Methods THEN [m : {"tdef"}, ot : {NoT}, nm : TypeNames] ELSE {})
